@@ -146,7 +146,6 @@ Definition spawn_one (t : trec) (cm : cmdst) : cmdst :=
 
 (* ---------- CommandWaker::wake_by_ref / TaskWaker::wake_by_ref ---------- *)
 Fixpoint wake (fuel : nat) (w : waker) (H : heap) : heap :=
-  match fuel with 0 => H | S f =>
   match w with
   | WExec q => push_xready q H
   | WCmd c s g =>
@@ -154,10 +153,17 @@ Fixpoint wake (fuel : nat) (w : waker) (H : heap) : heap :=
     let H1 := if c_alive (gcmd c H) then ucmd c (fun cm => set_ready (c_ready cm ++ [s]) cm) H else H in
     let H2 := set_woken g H1 in
     match c_atomic (gcmd c H2) with
-    | Some w' => wake f w' (ucmd c (set_atomic None) H2)
+    | Some w' =>
+      (* the fuel only bounds how far UP the chain of hosts the wake is followed; what the waker does to its own
+         command (enqueue, mark woken) does not depend on it.  A chain deeper than the fuel leaves the remaining
+         hosts registered and un-woken (never reached: WF is far above any nesting depth) *)
+      match fuel with
+      | 0 => H2
+      | S f => wake f w' (ucmd c (set_atomic None) H2)
+      end
     | None => note B_AtomicEmpty H2
     end
-  end end.
+  end.
 Definition WF := 64.   (* nesting depth bound for one wake chain; far above what generated programs reach *)
 
 (* ---------- futures mpsc::unbounded ---------- *)
